@@ -104,7 +104,9 @@ func cacheKey(req *http.Request) string {
 
 	hash.Write(stringx.ToBytes("RFC 7234"))
 	hash.Write(stringx.ToBytes(req.URL.String()))
+	hash.Write([]byte{0}) // url and method must not run into each other
 	hash.Write(stringx.ToBytes(req.Method))
+	hash.Write([]byte{0})
 
 	value := req.Header.Get("Authorization")
 	if len(value) != 0 {
